@@ -189,7 +189,10 @@ def witemsOfString (s : String) : Option (List WItem) :=
 def destOf (name dest filter : Str) : Out (Option (List Str × List Filter)) := do
   let text := cs!"%{" ++ name ++ (if dest.isEmpty && filter.isEmpty then [] else ':' :: dest)
     ++ (if filter.isEmpty then [] else ':' :: filter) ++ cs!"}"
-  let p ← parsePlaceholder prims text
+  let p ← (match parsePlaceholder prims text with
+    | .ok p => (.ok p : Out Pat)
+    | .error .syntax => .err .syntax
+    | .error .oom => .oom)
   match p.dest with
   | none => pure none
   | some ⟨path, none⟩ => pure (some (path, []))
